@@ -21,9 +21,12 @@ EXHAUSTIVE = False
 RULE = ("time lines enumerated from a grid: openHandshakeTimeout, closeHandshakeTimeout, serverConnectionDropTimeout, "
         "autoPingInterval, autoPingTimeout in {0,1,2,3,5,10}, autoPingRestartOnAnyTraffic, both roles, connection made "
         "at 3 phases of the whole-second timer grid (0, .37, .75); every peer reaction (handshake octets whole / split, "
-        "close reply, TCP drop, pong, wrong / stale pong, data frame, fragment, peer ping) placed on a 0.25 s lattice "
+        "close reply, TCP drop, pong, wrong / stale pong, data frame, fragment, peer ping; for a client behind an explicit HTTP proxy "
+        "also the proxy's answer to CONNECT whole / split / denied) placed on a 0.25 s lattice "
         "from 2 s before to 1.5 s after its deadline, and - where it coincides with the instant the timer fires - "
-        "before the timer, after it, and (asyncio) inside the same loop iteration; races of two timers (close while a "
+        "before the timer, after it, and (asyncio) inside the same loop iteration; the closing handshake started by the "
+        "application (sendClose, also from onOpen) and by the LIBRARY failing the connection with failByDrop=False (reserved "
+        "opcode, RSV bit, invalid UTF-8 text, message over maxMessagePayloadSize); races of two timers (close while a "
         "ping is pending, auto-ping falling due while CLOSING, peer close while a ping is pending, protocol violation "
         "while a ping is pending, delayed connection-lost after our loseConnection); plus seeded random time lines over "
         "the full option grid. After CLOSED every remaining timer is fired and the clock advanced by one hour. "
@@ -49,6 +52,11 @@ DECIDING = {
     "deadline_evaluated_open_server": 20, "deadline_evaluated_open_client": 20,
     "deadline_evaluated_close_server": 20, "deadline_evaluated_close_client": 20,
     "deadline_evaluated_drop_client": 20,
+    # close frame sent by the LIBRARY to fail the connection (failByDrop=False), peer silent / answering in time
+    "deadline_evaluated_failclose_server": 20, "deadline_evaluated_failclose_client": 20, "responsive_not_dropped_failclose": 10,
+    "failclose_kinds": 8,
+    # client behind an explicit HTTP proxy: proxy silent or half-answering (STATE_PROXY_CONNECTING) / answered, server silent
+    "deadline_evaluated_open_proxy_pending": 20, "deadline_evaluated_open_proxy_answered": 20, "responsive_not_dropped_open_proxy": 10,
     "deadline_evaluated_ping_server": 20, "deadline_evaluated_ping_client": 20,
     "timer_drops_evaluated": 200,
     "responsive_not_dropped_open": 100, "responsive_not_dropped_close": 50, "responsive_not_dropped_drop": 10,
@@ -107,6 +115,21 @@ def fam_open():
                     yield {"fam": "open/peer-drop", "role": role, "opts": o, "t0": t0, "acts": [[off, "drop"]], "horizon": hz}
                 # first half only: still silent as far as the handshake is concerned
                 yield {"fam": "open/half-only", "role": role, "opts": o, "t0": t0, "acts": [[0.25, "hs_a"]], "horizon": hz}
+                if role == "client":
+                    # explicit HTTP proxy: CONNECT first (STATE_PROXY_CONNECTING); the deadline runs from connection-made
+                    px = {"role": "client", "proxy": True, "opts": o, "t0": t0, "horizon": hz}
+                    yield dict(px, fam="open/proxy/silent", acts=[])
+                    yield dict(px, fam="open/proxy/partial-answer", acts=[[0.25, "px_a"]])
+                    yield dict(px, fam="open/proxy/denied", acts=[[0.25, "px_deny"]])
+                    for off in lattice(oht):
+                        for b in placements(t0, 0.0, oht, off):
+                            # proxy answers at off, the server behind it stays silent / answers 0.25 s later
+                            yield dict(px, fam="open/proxy/answer-then-silent-server", acts=[[off, "px", b]])
+                            yield dict(px, fam="open/proxy/split-answer", acts=[[0.0, "px_a", True], [off, "px_b", b]])
+                            yield dict(px, fam="open/proxy/answer-then-hs", acts=[[off, "px", b], [off + 0.25, "hs"]])
+                            # proxy answers at once, the server completes at off
+                            yield dict(px, fam="open/proxy/early-answer-hs-at", acts=[[0.0, "px", True], [off, "hs", b]])
+                        yield dict(px, fam="open/proxy/peer-drop", acts=[[off, "drop"]])
 
 
 def _start_close(how, c):
@@ -115,17 +138,20 @@ def _start_close(how, c):
         return "close", []
     if how == "api":
         return None, [[c, "api_close"]]
-    return None, [[c, "bad"]]       # protocol violation by the peer: we fail the connection with a close frame
+    return None, [[c, how]]         # violation by the peer (bad | bad_rsv | bad_utf8 | big): we FAIL the connection with a close frame
 
 
 def fam_close():
     for role in ("server", "client"):
         for cht in GRID:
             for t0 in T0S:
-                for how in ("api", "onopen", "bad"):
-                    c = HS_AT if how == "onopen" else CLOSE_AT
+                for how, c in (("api", CLOSE_AT), ("onopen", HS_AT), ("bad", CLOSE_AT), ("bad_rsv", CLOSE_AT), ("bad_utf8", 1.5),
+                               ("big", CLOSE_AT), ("bad", 2.25)):
                     onopen, acts0 = _start_close(how, c)
                     o = opts_base(closeHandshakeTimeout=cht, serverConnectionDropTimeout=2)
+                    if how not in ("api", "onopen"):
+                        # the LIBRARY starts the closing handshake (1002 / 1007 / 1009); failByDrop defaults to True = drop at once
+                        o.update(failByDrop=False, maxMessagePayloadSize=64)
                     base = {"role": role, "opts": o, "t0": t0, "onopen": onopen, "horizon": c + max(cht, 1) + 6}
                     a0 = [[HS_AT, "hs"]] + acts0
                     yield dict(base, fam="close/silent/" + how, acts=a0)
@@ -207,7 +233,8 @@ def fam_races():
                 for cht in (1, 3, 10):
                     for trigger in ("api_close", "bad"):
                         for d in (0.25, 1.0, T - 0.25):
-                            o = opts_base(autoPingInterval=I, autoPingTimeout=T, closeHandshakeTimeout=cht, serverConnectionDropTimeout=2)
+                            o = opts_base(autoPingInterval=I, autoPingTimeout=T, closeHandshakeTimeout=cht, serverConnectionDropTimeout=2,
+                                          failByDrop=False)
                             base = {"role": role, "opts": o, "t0": t0, "acts": [[HS_AT, "hs"]], "horizon": I + T + cht + 8}
                             r0 = {"on": "ping", "delay": d, "do": trigger, "first": 0, "count": 1}
                             yield dict(base, fam="race/close-during-ping/silent", rules=[r0])
@@ -220,10 +247,11 @@ def fam_races():
             # E2 an auto-ping falls due while we are CLOSING (nothing may be sent, nothing may be armed)
             for I, T in ((1, 1), (2, 1), (2, 2), (3, 5), (5, 0)):
                 for cht in (2, 3, 5, 10):
-                    for how in ("api", "bad", "onopen"):
+                    for how in ("api", "bad", "onopen", "bad_utf8"):
                         c = HS_AT if how == "onopen" else CLOSE_AT
                         onopen, acts0 = _start_close(how, c)
-                        o = opts_base(autoPingInterval=I, autoPingTimeout=T, closeHandshakeTimeout=cht, serverConnectionDropTimeout=2)
+                        o = opts_base(autoPingInterval=I, autoPingTimeout=T, closeHandshakeTimeout=cht, serverConnectionDropTimeout=2,
+                                      failByDrop=False)
                         base = {"role": role, "opts": o, "t0": t0, "onopen": onopen, "horizon": c + cht + 8}
                         a0 = [[HS_AT, "hs"]] + acts0
                         yield dict(base, fam="race/ping-due-while-closing/silent", acts=a0)
@@ -259,7 +287,7 @@ def fam_races():
 FAMILIES = [("open", fam_open), ("close", fam_close), ("peer-close", fam_peer_close), ("ping", fam_ping), ("races", fam_races)]
 
 RKINDS = ["hs", "hs_a", "hs_b", "close", "drop", "drop_clean", "pong", "pong_wrong", "pong_stale", "data", "dataf", "ping", "bad",
-          "api_close"]
+          "bad_rsv", "bad_utf8", "big", "api_close"]
 
 
 def gen_random(rng):
@@ -269,17 +297,26 @@ def gen_random(rng):
          "autoPingRestartOnAnyTraffic": rng.random() < 0.5}
     if role == "client":
         o["serverConnectionDropTimeout"] = rng.choice(GRID)
-    if rng.random() < 0.15:
-        o["failByDrop"] = True
+    o["failByDrop"] = rng.random() < 0.35       # the library default is True (fail = drop at once)
+    if rng.random() < 0.5:
+        o["maxMessagePayloadSize"] = 64
     if rng.random() < 0.1:
         o["autoPingSize"] = rng.choice((12, 16, 125))
     t0 = rng.choice((0.0, 0.37, 0.75, 0.5, 0.99, 0.001))
     acts = []
     t = 0.0
+    proxy = role == "client" and rng.random() < 0.2
+    if proxy and rng.random() < 0.8:
+        t = rng.choice((0.0, 0.25, 0.75, 1.0, 1.75, 2.75))
+        if rng.random() < 0.25:
+            acts.append([0.0, "px_a", True])
+            acts.append([t, "px_b", rng.choice((False, True, "iter"))])
+        else:
+            acts.append([t, rng.choice(("px", "px", "px", "px_a", "px_deny")), rng.choice((False, True, "iter"))])
     if rng.random() < 0.85:
-        t = rng.choice((0.0, 0.25, 0.75, 1.0, 1.75))
+        t = t + rng.choice((0.0, 0.25, 0.75, 1.0, 1.75))
         if rng.random() < 0.2:
-            acts.append([0.0, "hs_a", True])
+            acts.append([t if proxy else 0.0, "hs_a", True])
             acts.append([t, "hs_b", rng.choice((False, True, "iter"))])
         else:
             acts.append([t, "hs", rng.choice((False, True, "iter"))])
@@ -291,10 +328,10 @@ def gen_random(rng):
         for _ in range(rng.choice((0, 1, 1, 2))):
             rules.append({"on": "ping", "delay": rng.choice((0.0, 0.25, 0.5, 0.75, 1.0, 1.25, 1.75, 2.0, 2.75, 4.0, 4.75, 9.0, 9.75, 10.0)),
                           "do": rng.choice(("pong", "pong", "pong", "data", "dataf", "pong_wrong", "pong_stale", "close", "api_close",
-                                            "bad", "drop", "ping")),
+                                            "bad", "bad_utf8", "drop", "ping")),
                           "first": rng.choice((0, 0, 1, 2)), "count": rng.choice((1, 1, 2, 5, None)),
                           "before": rng.choice((False, False, True, "iter"))})
-    case = {"fam": "random", "role": role, "opts": o, "t0": t0, "acts": acts, "rules": rules,
+    case = {"fam": "random", "role": role, "proxy": proxy, "opts": o, "t0": t0, "acts": acts, "rules": rules,
             "onopen": "close" if rng.random() < 0.07 else None,
             "lost_delay": rng.choice((None, None, 0.25, 1.0, 3.0, 12.0)),
             "horizon": t + rng.choice((3, 6, 12, 25))}
@@ -371,7 +408,7 @@ def run_shard(params, R):
         raise RuntimeError("NVX selection mismatch: wanted %s, USES_NVX=%s" % (nvx, W.USES_NVX))
     tier, part, parts, seed = params["tier"], params["part"], params["parts"], params["seed"]
     for k in DECIDING:
-        if k != "roles_fw":
+        if k not in ("roles_fw", "failclose_kinds"):
             R.count(k, 0)
     # ---- enumerated families.  thorough: all of them; quick / pure: a seed-dependent residue class of each family
     stride = {"quick": 3, "pure": 12, "thorough": 1}[tier]
@@ -413,7 +450,9 @@ MANIFEST_ENTRY = {
              "that timer; while OPEN the next auto-ping is on the wire within (ref+interval-1, ref+interval]; after CLOSED every "
              "remaining timer is fired and one more hour passes without any callback, write, transport call, state or "
              "close-result change. Workload: grid {0,1,2,3,5,10} of the five timeouts x restart-on-traffic x both roles x 3 phases "
-             "of the whole-second timer grid, each peer reaction on a 0.25 s lattice before/at/after its deadline (at = before, "
+             "of the whole-second timer grid (closing handshakes started by the application and by the library failing the connection "
+             "with failByDrop=False; clients also behind an explicit HTTP proxy that stays silent, answers CONNECT partially, late or in "
+             "time), each peer reaction on a 0.25 s lattice before/at/after its deadline (at = before, "
              "after and inside the timer's loop iteration), two-timer races, random time lines. Held = no deviation on the time "
              "lines listed in the evidence; not a proof."),
     "note": ("trusts the virtual clock / fake transports of vf/world.py and the frame codec vf/rfc6455_ref.py; one-sided tolerance "
